@@ -290,6 +290,7 @@ namespace
     struct Root
     {
         std::string name; // variable name or "this"
+        std::string decl;
         std::string type;
         bool isParam = false;
         bool isLocal = false;
@@ -311,6 +312,7 @@ namespace
             if (auto* VD = dyn_cast<VarDecl>(D->getDecl()))
             {
                 R.name = VD->getNameAsString();
+                R.decl = std::to_string(lineOf(VD->getLocation())) + ":" + std::to_string(colOf(VD->getLocation()));
                 R.type = typeStr(VD->getType());
                 R.isParam = isa<ParmVarDecl>(VD);
                 R.isLocal = VD->isLocalVarDecl();
@@ -368,6 +370,7 @@ namespace
             if (auto* VD = dyn_cast<VarDecl>(D->getDecl()))
             {
                 O["v"] = VD->getNameAsString();
+                O["vd"] = std::to_string(lineOf(VD->getLocation())) + ":" + std::to_string(colOf(VD->getLocation()));
                 O["vt"] = typeStr(VD->getType());
                 if (!VD->isLocalVarDecl() && !isa<ParmVarDecl>(VD))
                     O["g"] = qname(VD);
@@ -379,6 +382,8 @@ namespace
         if (rootOf(S, R))
         {
             O["root"] = R.name;
+            if (!R.decl.empty())
+                O["rootd"] = R.decl;
             if (!R.type.empty())
                 O["rootT"] = R.type;
         }
@@ -501,6 +506,14 @@ namespace
             return "";
         if (RD->isLambda())
             return "lambda@" + locStr(RD->getBeginLoc());
+        if (isa<ClassTemplateSpecializationDecl>(RD))
+        {
+            std::string s;
+            llvm::raw_string_ostream os(s);
+            RD->getNameForDiagnostic(os, G.PP, true);
+            os.flush();
+            return fixup(s);
+        }
         return qname(RD);
     }
 
@@ -523,6 +536,13 @@ namespace
                 O["static"] = true;
         }
         O["cret"] = typeStr(FD->getReturnType());
+        O["cretc"] = typeStr(FD->getReturnType().getCanonicalType());
+        {
+            json::Array ps;
+            for (auto* P : FD->parameters())
+                ps.push_back(typeStr(P->getType()));
+            O["cparams"] = std::move(ps);
+        }
         if (const FunctionDecl* Def = FD->getDefinition())
             if (Def != FD)
                 O["cdef"] = locStr(Def->getLocation());
@@ -640,6 +660,7 @@ namespace
                         continue;
                     json::Object O = base("decl", S);
                     O["var"] = VD->getNameAsString();
+                    O["vd"] = std::to_string(lineOf(VD->getLocation())) + ":" + std::to_string(colOf(VD->getLocation()));
                     O["type"] = typeStr(VD->getType());
                     if (VD->isStaticLocal())
                         O["static"] = true;
@@ -870,6 +891,7 @@ namespace
                 {
                     json::Object O = base("use", S);
                     O["v"] = VD->getNameAsString();
+                    O["vd"] = std::to_string(lineOf(VD->getLocation())) + ":" + std::to_string(colOf(VD->getLocation()));
                     if (!VD->isLocalVarDecl() && !isa<ParmVarDecl>(VD))
                         O["g"] = qname(VD);
                     out.push_back(std::move(O));
@@ -1058,6 +1080,7 @@ namespace
                     {
                         json::Object O = base("dtor", nullptr);
                         O["var"] = D->getVarDecl()->getNameAsString();
+                        O["vd"] = std::to_string(lineOf(D->getVarDecl()->getLocation())) + ":" + std::to_string(colOf(D->getVarDecl()->getLocation()));
                         O["type"] = typeStr(D->getVarDecl()->getType());
                         O["l"] = (int64_t)lineOf(D->getTriggerStmt() ? D->getTriggerStmt()->getEndLoc() : SourceLocation());
                         elems.push_back(std::move(O));
